@@ -3,6 +3,7 @@ import Sentinel.Lemmas.WarmUp
 import Sentinel.Lemmas.WarmUpHist
 import Sentinel.Lemmas.WarmUpRun
 import Sentinel.Lemmas.WarmUpReload
+import Sentinel.Lemmas.WarmUpOwn
 /-!
 # C11 — adaptive thresholds stay inside their configured envelope
 
@@ -910,5 +911,82 @@ theorem window_cap_with_reloads (B T : ℚ) (p cf iv t0 : ℕ) (hnd : Known.dege
   have h := dinv_run ops d hm hr w
   exact ⟨h, Nat.le_floor h⟩
 
+
+/-! ## window cap on a statistic of the rule's own (any geometry `n × L`; `Lemmas/WarmUpOwn.lean`, via C08's `getSum_eq_ref n L`)
+
+`runO n L (s0, []) ops`: after the first load, any history of requests `req t b` (through the driver's `reqG`), memory readings `mem v`
+and reloads `reload now r` of the resource's rule (Reject, same `StatIntervalInMs`, so the controller is kept or rebuilt **on the inherited
+statistic**); the second component is the list of admitted requests. `passInL L adm lo hi` = admitted tokens whose bucket start (own grid,
+bucket length `L`) lies in `[lo, hi]`; `[w, w + n·L − L]` is a window of `n` consecutive buckets = one interval of the rule. -/
+open Sentinel.WU.O
+
+/-- the state right after loading a valid rule with a statistic of its own (`n` buckets of length `L`, interval `n·L`) on a fresh resource -/
+theorem own_load_state (r : RuleP ℚ) (n L t0 : ℕ) (hn : 0 < n) :
+    (loadRuleG ({} : Sys ℚ) t0 r none true n (n * L) true).own = some (LA.mk n L t0) ∧
+    (∃ a, (loadRuleG ({} : Sys ℚ) t0 r none true n (n * L) true).arr = some a) ∧
+    (loadRuleG ({} : Sys ℚ) t0 r none true n (n * L) true).rule = some (calcOf r, n, n * L) ∧
+    (∃ b, (loadRuleG ({} : Sys ℚ) t0 r none true n (n * L) true).bound = some b ∧ b.iv = r.iv) ∧
+    (loadRuleG ({} : Sys ℚ) t0 r none true n (n * L) true).behav = none := by
+  have e : n * L / n = L := Nat.mul_div_cancel_left L hn
+  cases r with
+  | wu T p cf iv =>
+    refine ⟨?_, ⟨_, rfl⟩, rfl, ⟨_, rfl, rfl⟩, rfl⟩
+    show some (LA.mk n (n * L / n) t0) = _
+    rw [e]
+  | ma m iv =>
+    refine ⟨?_, ⟨_, rfl⟩, rfl, ⟨_, rfl, rfl⟩, rfl⟩
+    show some (LA.mk n (n * L / n) t0) = _
+    rw [e]
+
+theorem own_oinv_init (total : ℤ) (B : ℚ) (r : RuleP ℚ) (n L t0 : ℕ) (hn : 0 < n) (h0 : 0 < t0)
+    (hv : ∀ m iv, r = .ma m iv → m.valid total = true) (hB : RuleBelow B (calcOf r)) (hB0 : 0 ≤ B) :
+    OInv total B r.iv n L t0 (loadRuleG ({} : Sys ℚ) t0 r none true n (n * L) true, []) t0 := by
+  obtain ⟨k1, k2, k3, k4, k5⟩ := own_load_state r n L t0 hn
+  have hri : RInv total (loadRuleG ({} : Sys ℚ) t0 r none true n (n * L) true) :=
+    loadRuleG_rinv (rinv_init total) _ _ _ _ _ _ _ (fun m iv e _ => hv m iv e)
+  refine ⟨k4, k5, hri, ⟨_, k3, hB⟩, ?_, k2, trivial, by simp, le_refl _, h0, ?_⟩
+  · rw [k1]; rfl
+  · intro w
+    have : passInL L ([] : Adm) w (w + n * L - L) = 0 := by simp [passInL]
+    rw [this]; simpa using hB0
+
+/-- **window cap on the rule's own statistic, warm-up (Reject), with reloads**: a non-degenerate warm-up rule whose `StatIntervalInMs = n·L`
+    cannot reuse the resource's statistic is loaded on a fresh resource at `t0` and owns a `BucketLeapArray(n, n·L)` (one bucket for every
+    non-round interval, several for 1500 / 3000 ms). After **any** history of requests (any batch sizes, any non-decreasing instants), memory
+    readings and reloads that inherit the statistic — each reloaded rule valid, with the same interval and thresholds at most `B`
+    (`ReloadsBelow`: a non-degenerate warm-up rule with `T' ≤ B`, or a memory-adaptive rule with `LowMemUsageThreshold ≤ B`) — every aligned
+    window of the rule's interval (`n` consecutive buckets of its own grid) holds at most `B` = the largest threshold loaded, hence `⌊B⌋` tokens -/
+theorem own_window_cap_warmup (total : ℤ) (B T : ℚ) (p cf iv n L t0 : ℕ) (hn : 0 < n) (hL : 0 < L) (h0 : 0 < t0)
+    (hnd : Known.degenerateNaN (mkCfg T p cf) = false) (hTB : T ≤ B) (ops : List OOp) (hm : MonoO t0 ops)
+    (hrb : ReloadsBelow total B iv ops) (w : ℕ) :
+    (passInL L (runO n L (loadRuleG ({} : Sys ℚ) t0 (.wu T p cf iv) none true n (n * L) true, []) ops).2 w (w + n * L - L) : ℚ) ≤ B ∧
+    passInL L (runO n L (loadRuleG ({} : Sys ℚ) t0 (.wu T p cf iv) none true n (n * L) true, []) ops).2 w (w + n * L - L) ≤ ⌊B⌋₊ := by
+  have hT : (0 : ℚ) ≤ B := le_trans (le_of_lt (mkCfg_wf T p cf hnd).Tpos) hTB
+  have d := own_oinv_init total B (.wu T p cf iv) n L t0 hn h0 (fun m iv' e => by cases e) ⟨hnd, hTB⟩ hT
+  have h := oinv_run hn hL ops d hm hrb w
+  exact ⟨h, Nat.le_floor h⟩
+
+/-- **… memory-adaptive (Reject), with reloads**: for a valid rule on its own statistic, whatever memory readings are injected along the
+    history (any integers) and whichever rules of the same interval are reloaded with thresholds at most `B ≥ LowMemUsageThreshold`, every
+    aligned window of the rule's interval holds at most `B` admitted tokens — each admission was within the interpolated threshold of its
+    reading, which lies in `[HighMemUsageThreshold, LowMemUsageThreshold]` (`history_admission_within_threshold_adaptive`) -/
+theorem own_window_cap_adaptive (total : ℤ) (B : ℚ) (m : MemCfg) (hv : m.valid total = true) (hB : (m.lowT : ℚ) ≤ B)
+    (iv n L t0 : ℕ) (hn : 0 < n) (hL : 0 < L) (h0 : 0 < t0) (ops : List OOp) (hm : MonoO t0 ops)
+    (hrb : ReloadsBelow total B iv ops) (w : ℕ) :
+    (passInL L (runO n L (loadRuleG ({} : Sys ℚ) t0 (.ma m iv) none true n (n * L) true, []) ops).2 w (w + n * L - L) : ℚ) ≤ B := by
+  have hlow : (0 : ℚ) ≤ B := by
+    have := ((valid_iff m total).1 hv).1
+    have : (0 : ℚ) < m.lowT := by exact_mod_cast this
+    linarith
+  have d := own_oinv_init total B (.ma m iv) n L t0 hn h0 (fun m' iv' e => by cases e; exact hv) hB hlow
+  exact oinv_run hn hL ops d hm hrb w
+
+/-- without reloads the bound is the rule's own threshold (`B := T`, resp. `B := LowMemUsageThreshold`) -/
+example (total : ℤ) (T : ℚ) (p cf iv n L t0 : ℕ) (hn : 0 < n) (hL : 0 < L) (h0 : 0 < t0)
+    (hnd : Known.degenerateNaN (mkCfg T p cf) = false) (rq : List (ℕ × ℕ)) (w : ℕ)
+    (hm : MonoO t0 (rq.map fun e => OOp.req e.1 e.2)) (hrb : ReloadsBelow total T iv (rq.map fun e => OOp.req e.1 e.2)) :
+    passInL L (runO n L (loadRuleG ({} : Sys ℚ) t0 (.wu T p cf iv) none true n (n * L) true, []) (rq.map fun e => OOp.req e.1 e.2)).2
+      w (w + n * L - L) ≤ ⌊T⌋₊ :=
+  (own_window_cap_warmup total T T p cf iv n L t0 hn hL h0 hnd (le_refl _) _ hm hrb w).2
 
 end Sentinel.C11
